@@ -108,6 +108,15 @@ def as_path(p, kind):
 
 
 PATH_KINDS = ["str", "Path", "str", "Path", "relative-plain", "relative-dot-Path"]
+CALL_STYLES = ["positional", "positional", "keyword"]   # the documented parameter names: Tdf.new(filename=...), tdf.copy(new_filename=...)
+
+
+def call_new(Tdf, arg, style):
+    return Tdf.new(filename=arg) if style == "keyword" else Tdf.new(arg)
+
+
+def call_copy(obj, arg, style):
+    return obj.copy(new_filename=arg) if style == "keyword" else obj.copy(arg)
 
 
 def check_fresh_container(ctx, what, data):
@@ -140,7 +149,8 @@ def _in_plain_context(t, blk):
 
 
 def new_strategy(tier):
-    return st.fixed_dictionaries({"target": st.sampled_from(TARGETS + ABSENT_KINDS[1:] + ["absent"]), "path": st.sampled_from(PATH_KINDS), "seed": st.integers(0, 10 ** 6)})
+    return st.fixed_dictionaries({"target": st.sampled_from(TARGETS + ABSENT_KINDS[1:] + ["absent"]), "path": st.sampled_from(PATH_KINDS), "seed": st.integers(0, 10 ** 6),
+                                  "call": st.sampled_from(CALL_STYLES)})
 
 
 def run_new(ctx, case):
@@ -152,7 +162,7 @@ def run_new(ctx, case):
         p, before = make_target(d, case["target"], case["seed"])
         snap = snapshot(d)
         try:
-            t = Tdf.new(as_path(p, case["path"]))
+            t = call_new(Tdf, as_path(p, case["path"]), case.get("call", "positional"))
             exc = None
         except Exception as e:  # noqa
             t, exc = None, e
@@ -218,7 +228,7 @@ def copy_strategy(tier):
     return st.fixed_dictionaries({"target": st.sampled_from(ABSENT_KINDS + ["absent"] + TARGETS[1:]), "path": st.sampled_from(PATH_KINDS),
                                   "inside_context": st.sampled_from([False, False, True]),
                                   "seed": st.integers(0, 10 ** 6), "source": container.init_images(), "followup": st.lists(op, max_size=5),
-                                  "source_via_library": st.booleans(),
+                                  "source_via_library": st.booleans(), "call": st.sampled_from(CALL_STYLES),
                                   "source_path": st.sampled_from(["direct", "direct", "symlink-abs", "symlink-rel", "symlink-chain", "hardlink"])})
 
 
@@ -268,7 +278,7 @@ def run_copy(ctx, case):
                             from .c07 import labelled_spec
 
                             w.add_block(specs.build(labelled_spec(cands[0], 2)), "added just before the copy")
-                        cp = w.copy(as_path(p, case["path"]))
+                        cp = call_copy(w, as_path(p, case["path"]), case.get("call", "positional"))
                     exc = None
                 except Exception as e:  # noqa
                     cp, exc = None, e
@@ -276,7 +286,7 @@ def run_copy(ctx, case):
                 ctx.label("copy:inside-write-context")
             else:
                 try:
-                    cp = src.copy(as_path(p, case["path"]))
+                    cp = call_copy(src, as_path(p, case["path"]), case.get("call", "positional"))
                     exc = None
                 except Exception as e:  # noqa
                     cp, exc = None, e
@@ -467,6 +477,33 @@ def run_invalid(ctx, case):
                 ctx.fail(f"open/{kind}/{name}-yields-data" + ("" if pre == "never" else "-after-valid-use"),
                          f"reader {name} on a file without the TDF signature ({kind}{'' if pre == 'never' else '; the same object had read a valid file at this path before: ' + pre}) "
                          f"returned {str(r)[:60]!r} instead of raising")
+            # a refusal must not wear off: the reader that follows a refused one through the SAME object is refused too
+            names = list(readers)
+            for i, first in enumerate(names):
+                second = names[(i + 1 + seed) % len(names)]
+                try:
+                    t = Tdf(arg)
+                except Exception:  # noqa
+                    continue
+                try:
+                    readers[first](t)
+                    continue   # (reported above)
+                except Exception:  # noqa
+                    pass
+                try:
+                    r = readers[second](t)
+                except Exception:  # noqa
+                    r = None
+                    refused2 = True
+                else:
+                    refused2 = False
+                finally:
+                    h = getattr(t, "handler", None)
+                    if h is not None and not h.closed:
+                        h.close()
+                if not refused2:
+                    ctx.fail(f"open/{kind}/second-read-{second}-yields-data", f"on a file without the TDF signature ({kind}) reader {first} was refused, but reader {second} through the same "
+                                                                              f"object then returned {str(r)[:60]!r} instead of raising")
             if open(p, "rb").read() != data:
                 ctx.fail(f"open/{kind}/file-changed", "reading an invalid file changed it")
     finally:
